@@ -209,7 +209,7 @@ func c09Docs(n int) []*adoc.Doc {
 		if !adoc.Serialisable(f) {
 			continue
 		}
-		for scheme := 0; scheme < 6; scheme++ {
+		for scheme := 0; scheme < 8; scheme++ {
 			d := adoc.NewDoc()
 			d.ImplicitXML = true
 			cnt, elemNo := 0, 0
@@ -281,6 +281,36 @@ func c09Docs(n int) []*adoc.Doc {
 						}
 						e.Add(adoc.ANS(adoc.URI_U, "p", "x", "3"))
 					}
+				case 6: // default + prefixed declarations, default un-declared below, prefix still used
+					if no == 1 {
+						e.Declare("", adoc.URI_D)
+						e.Declare("p", adoc.URI_U)
+						e.Declare("q", adoc.URI_V)
+						e.Space = adoc.URI_D
+						inDefault = true
+					}
+					if no == 2 {
+						e.Declare("", "")
+						inDefault = false
+						e.Add(adoc.ANS(adoc.URI_V, "q", "y", "1"))
+					}
+					if no == 3 {
+						e.Space, e.Prefix = adoc.URI_U, "p"
+					}
+					if no > 3 && inDefault {
+						e.Space = adoc.URI_D
+					}
+				case 7: // explicit re-declaration of the xml prefix next to other declarations
+					if no == 1 {
+						e.Declare("p", adoc.URI_U)
+						e.Declare("xml", adoc.XMLNS)
+						e.Declare("q", adoc.URI_V)
+						e.Add(adoc.A("k", "v"))
+					}
+					if no == 2 {
+						e.Declare("xml", adoc.XMLNS)
+						e.Space, e.Prefix = adoc.URI_V, "q"
+					}
 				case 5: // declaration on an inner element only; attribute values with entities
 					if no == 2 {
 						e.Declare("p", adoc.URI_V)
@@ -297,7 +327,7 @@ func c09Docs(n int) []*adoc.Doc {
 				d.Root.Add(mk(t, false, ""))
 			}
 			d.Finish()
-			if scheme == 2 {
+			if scheme == 2 || scheme == 6 {
 				c09FixUndeclared(d)
 			}
 			docs = append(docs, d)
@@ -603,7 +633,7 @@ func C09(c *run.Check) {
 	c.Sample(c09Join(c09Serialise(docs[len(docs)/3], variants[101])))
 	c.Set("documents", len(docs))
 	c.Set("serialisation_variants", len(variants))
-	c.Rule = fmt.Sprintf("every XML-serialisable forest with <=%d nodes over {a,b,text,comment,PI} x 6 namespace schemes (none; prefixed; default + xmlns=\"\" un-declaration; override + xml:lang; aliases + default; inner declaration) = %d abstract documents x %d serialisations (text as literal/char-refs/CDATA/split, empty-element tags, XML declaration absent/version/UTF-8/ISO-8859-1/windows-1252/US-ASCII with harness-transcoded bytes, DOCTYPE, prolog+epilog comments/PIs/white space, both quote kinds): parallel walk of the cursor tree against the abstract document incl. one namespace node per in-scope binding per element owned by that element; malformed side: EVERY truncation point inside markup or inside the document element, every unbalancing tag deletion / adjacent tag swap, undefined entity/invalid character/unknown charset must error; reader deviations: one short read and one I/O error at every byte offset", n, len(docs), len(variants))
+	c.Rule = fmt.Sprintf("every XML-serialisable forest with <=%d nodes over {a,b,text,comment,PI} x 8 namespace schemes (none; prefixed; default + xmlns=\"\" un-declaration; override + xml:lang; aliases + default; inner declaration; default+prefixes with un-declaration below; explicit xmlns:xml re-declaration) = %d abstract documents x %d serialisations (text as literal/char-refs/CDATA/split, empty-element tags, XML declaration absent/version/UTF-8/ISO-8859-1/windows-1252/US-ASCII with harness-transcoded bytes, DOCTYPE, prolog+epilog comments/PIs/white space, both quote kinds): parallel walk of the cursor tree against the abstract document incl. one namespace node per in-scope binding per element owned by that element; malformed side: EVERY truncation point inside markup or inside the document element, every unbalancing tag deletion / adjacent tag swap, undefined entity/invalid character/unknown charset must error; reader deviations: one short read and one I/O error at every byte offset", n, len(docs), len(variants))
 	c.Assume("white-space-only text children of the root (prolog/epilog) are not judged; truncation exactly between prolog items is not judged (encoding/xml has no notion of a missing document element)")
 }
 
